@@ -206,6 +206,7 @@ def judge_fault(ctx, nr, seq, fin, r, lst, follow, home=None):
         if r.get("outcome") != "exc" or r.get("exc_type") != want_exc:
             ctx.violation("exhausted_retries_not_propagated", cid, dict(detail, expected_exception=want_exc))
             return
+        _ds.pauses_observable(r, nr, 0.25)
         if nreq != nr + 1 or len(r["sleeps"]) != nr or any(abs(s - 0.25) > 1e-12 for s in r["sleeps"]):
             ctx.violation("retry_count_or_backoff", cid, dict(detail, expected_requests=nr + 1, expected_sleeps=nr))
             return
@@ -213,6 +214,7 @@ def judge_fault(ctx, nr, seq, fin, r, lst, follow, home=None):
             ctx.violation("cache_entry_after_failed_download", cid, detail)
             return
     else:
+        _ds.pauses_observable(r, f, 0.25)
         if nreq != f + 1 or len(r["sleeps"]) != f or any(abs(s - 0.25) > 1e-12 for s in r["sleeps"]):
             ctx.violation("retry_count_or_backoff", cid, dict(detail, expected_requests=f + 1, expected_sleeps=f))
             return
@@ -750,6 +752,7 @@ def run_flags(ctx):
         r = res[-1]
         ctx.judged()
         ctx.monitor("c19:flags")
+        _ds.pauses_observable(r, 3, 1.0)
         if r.get("outcome") != "exc" or r.get("exc_type") != "TimeoutError" or len(r["requests"]) != 4 or \
                 [round(s_, 9) for s_ in r["sleeps"]] != [1.0, 1.0, 1.0]:
             ctx.violation("documented_retry_defaults", {"kind": "flags", "name": dname, "seed": ctx.seed},
